@@ -20,3 +20,7 @@ Print Assumptions C07_chain.
 Theorem C07_order : C07_order_stmt.
 Proof. exact C07_order_proof. Qed.
 Print Assumptions C07_order.
+
+Theorem C07_total : C07_total_stmt.
+Proof. exact C07_total_proof. Qed.
+Print Assumptions C07_total.
